@@ -125,7 +125,7 @@ def job_c07(job, progress):
     try:
         lst = L.open_listing(path)
     except Exception as e:
-        if vspec.get('kind', 'orig') != 'orig' and type(e) is Exception and str(e).startswith(L.READER_REJECTS):
+        if vspec.get('kind', 'orig') != 'orig':
             st['variant-rejected-by-reader'] += 1
             return res
         raise
